@@ -53,7 +53,7 @@ CLOCKS = [("at 10:45", (10, 45, 0, 0)), ("14:00", (14, 0, 0, 0)), ("at 2 pm", (1
           ("at 12:00 am", (0, 0, 0, 0)), ("12:30 pm", (12, 30, 0, 0)), ("00:00", (0, 0, 0, 0)), ("at 1:02:03", (1, 2, 3, 0))]
 CLOCK_PHRASES = ["2 days ago", "in 3 weeks", "yesterday", "tomorrow", "1 month ago", "in 1 year", "today", "in 2 hours"]
 NOW_ZONES = ["UTC", "America/New_York", "Asia/Kolkata", "Asia/Kathmandu", "Australia/Lord_Howe", "Pacific/Kiritimati",
-             "Pacific/Pago_Pago", "Europe/London", "America/St_Johns", "+0530", "-1200", "EST"]
+             "Pacific/Pago_Pago", "Europe/London", "America/St_Johns", "+0530", "-1200", "EST", "UTC+05:45", "GMT+1", "EST5EDT"]
 NOW_ZONES_T = NOW_ZONES + ["Asia/Tokyo", "Europe/Moscow", "America/Sao_Paulo", "Africa/Cairo", "Pacific/Auckland", "Pacific/Chatham",
                            "America/Los_Angeles", "Asia/Tehran", "Australia/Adelaide", "Atlantic/Azores", "America/Caracas",
                            "Asia/Yangon", "+1400", "UTC+05:45", "CET", "JST", "Asia/Dhaka", "Europe/Paris", "America/Denver",
